@@ -1965,8 +1965,12 @@ class Compiler:
             # The conversion helpers look up the translation settings
             # in the enclosing function; the filler has its own. It
             # writes to the stream it's called with.
+            # The scope is a copy of the macro's: the target language
+            # that expressions read from it (attribute translations)
+            # is the one of the place where the filler was written.
             body = template("__append = __stream.append") + \
                 template("__token = None") + \
+                template("econtext['target_language'] = target_language") + \
                 emit_func_convert("__convert") + \
                 emit_func_convert_and_escape("__quote") + \
                 self.visit_Context(slot)
